@@ -11,7 +11,9 @@ out=seeded/SWEEP.md
 { echo "# Seed sweep $(date -u +%FT%TZ) on /repo $(git -C /repo rev-parse --short HEAD)"; echo; echo "| seed | property | check result | signature / replay |"; echo "|---|---|---|---|"; } > $out
 rc_all=0
 for s in $seeds; do
-  prop=$(python3 -c "import json;print(json.load(open('seeded/$s/meta.json'))['property'])")
+  # the check that is expected to catch the seed: the property it breaks, unless meta.json names another one ("sweep_check":
+  # e.g. a transaction-isolation slip that only shows with real threads is C10's to catch, whatever property it was written for)
+  prop=$(python3 -c "import json;m=json.load(open('seeded/$s/meta.json'));print(m.get('sweep_check') or m['property'])")
   git -C /repo apply /verif/seeded/$s/patch.diff || { echo "| $s | $prop | PATCH DOES NOT APPLY | |" >> $out; rc_all=1; continue; }
   log=$tmp/$s.log
   ./check $prop > $log 2>&1; rc=$?
